@@ -61,13 +61,27 @@ type IGSpec struct {
 type SrcRef struct {
 	Name        string
 	Start, Stop uint64
+	// StartText / StopText: how the configuration SPELLS the value (JSON text put in place of
+	// the bare number): a quoted decimal `"100"`, a zero-padded one `"0100"`, an environment
+	// reference `"$C06_START"` (Scenario.Env).  Start / Stop remain the decimal value meant.
+	StartText string `json:",omitempty"`
+	StopText  string `json:",omitempty"`
+}
+
+// spelled returns the JSON text of a number field: the given spelling, else the bare number.
+func spelled(text string, v uint64) any {
+	if text != "" {
+		return json.RawMessage(text)
+	}
+	return v
 }
 
 // SrcSpec declares one source.
 type SrcSpec struct {
 	Name        string
 	ChainID     uint64
-	Batch, Conc int // 0 = leave unset (defaults 1)
+	ChainIDText string `json:",omitempty"` // spelling of chain_id (see SrcRef.StartText)
+	Batch, Conc int    // 0 = leave unset (defaults 1)
 	URL         string
 	Poll        string `json:",omitempty"` // poll_duration
 }
@@ -224,7 +238,7 @@ func (ig *IGSpec) jsonConfig() map[string]any {
 	}
 	var srcs []map[string]any
 	for _, s := range ig.Sources {
-		srcs = append(srcs, map[string]any{"name": s.Name, "start": s.Start, "stop": s.Stop})
+		srcs = append(srcs, map[string]any{"name": s.Name, "start": spelled(s.StartText, s.Start), "stop": spelled(s.StopText, s.Stop)})
 	}
 	if len(ig.PreCols) > 0 {
 		pre := []jcol{}
@@ -285,7 +299,7 @@ func (ig *IGSpec) DeclaredRefs() []string {
 func BuildConfig(srcs []SrcSpec, igs []IGSpec) (config.Root, string, error) {
 	var js []map[string]any
 	for _, s := range srcs {
-		m := map[string]any{"name": s.Name, "chain_id": s.ChainID, "url": s.URL}
+		m := map[string]any{"name": s.Name, "chain_id": spelled(s.ChainIDText, s.ChainID), "url": s.URL}
 		if s.Batch != 0 {
 			m["batch_size"] = s.Batch
 		}
